@@ -810,6 +810,130 @@ example :
     (arrive s4 7 { close with argSeq := 1 }).2 = .reply (.err errBadSeqid) := by
   decide
 
+/-- **same_reply at the COMPOUND level** (4.0, commit 2dc060f): while `(r0, x0)` is
+the owner's last advanced transaction and it was a successful OPEN of the file
+with state ID other `f`, a retransmitted OPEN is answered with the cached
+response AND leaves the current filehandle at `f`, exactly as the original did
+(`finishFH`): GETFH / GETATTR behind OPEN in the retransmitted compound see the
+same file.  "The file cannot have been closed in the meantime" is the
+invariant `openInv_reachable`: any later transaction of the owner would have
+dropped the cached response.  (`ReachableWF`: successful OPENs return a state
+ID other that is new or the owner's own.) -/
+theorem same_reply_compound_40 {s : State} (h : ReachableWF s) (c : Nat) (r r0 : Req) (x0 : Resp) (o f q : Nat)
+    (hres : resolve s r = some o) (hdone : (s.oo o).lastDone = some (r0, x0)) (hseq : r.seq = r0.seq)
+    (hk : r.kind = .open_) (hk0 : r0.kind = .open_) (hx : x0.kind = .open_) (hst : x0.status = 0)
+    (hsid : x0.sid = some (f, q)) :
+    arrive s c r = (s, .reply (.cached x0)) ∧ arriveFH s c r = some f ∧ finishFH r0 x0 = some f := by
+  have hi := openInv_reachable h
+  obtain ⟨h1, _⟩ := same_reply_40 h.reachable c r r0 x0 o hres hdone hseq
+  have hrep : replayReply r x0 = .cached x0 := by unfold replayReply; simp [hx, hk]
+  rw [hrep] at h1
+  have hopen := hi.opened o r0 x0 f q hdone hk0 hst hsid
+  refine ⟨h1, ?_, ?_⟩
+  · unfold arriveFH; rw [h1]
+    simp [replayFH, hi.legacy, hk, hst, hsid, hopen]
+  · simp [finishFH, hk0, hst, hsid]
+
+/-- Before commit 2dc060f (`legacyOpenFH = true`): OPEN seqid 5 of a new owner
+succeeds on the file with state ID other 3 (current filehandle: that file);
+its retransmission gets the cached response but the current filehandle is
+left alone (the directory): GETFH behind it differs. -/
+theorem legacy_open_fh_counterexample :
+    let open0 : Req := ⟨.open_, 7, 0, 0, 5, 1⟩
+    let x0 : Resp := ⟨.open_, 0, some (3, 1), 0⟩
+    let run (legacy : Bool) : State := (finish (arrive { legacyOpenFH := legacy } 0 open0).1 7 ⟨x0, 0, 0, false⟩).1
+    finishFH open0 x0 = some 3 ∧
+    (arrive (run true) 1 open0).2 = .reply (.cached x0) ∧ arriveFH (run true) 1 open0 = none ∧
+    (arrive (run false) 1 open0).2 = .reply (.cached x0) ∧ arriveFH (run false) 1 open0 = some 3 := by
+  decide
+
+/-! ### `nextSeqID` -/
+
+/-- `nextSeqID` over all 32-bit values, as written in the source: the successor
+of `n` is `n + 1`, except that `2^32 - 1` is followed by 1 (never 0); it is a
+32-bit value again, never 0 and never `n` itself (so "retransmission" =
+equality with the last seqid and "next" = `nextSeq` never coincide). -/
+theorem next_seq_spec_40 (n : Nat) (h : n < 2 ^ 32) :
+    nextSeq n < 2 ^ 32 ∧ nextSeq n ≠ 0 ∧ nextSeq n ≠ n ∧
+    (n ≠ 2 ^ 32 - 1 → nextSeq n = n + 1) ∧ (n = 2 ^ 32 - 1 → nextSeq n = 1) := by
+  unfold nextSeq M32
+  split <;> omega
+
+/-- The same on machine words (`nfsv4.Seqid4` is a `uint32`). -/
+theorem next_seq_bitvec_40 (n : BitVec 32) :
+    nextSeq n.toNat = (if n = 0xffffffff#32 then 1#32 else n + 1#32).toNat := by
+  have hlt := n.isLt
+  unfold nextSeq M32
+  by_cases hn : n = 0xffffffff#32
+  · subst hn; decide
+  · have hne : n.toNat ≠ 4294967296 - 1 := by
+      intro h; apply hn; apply BitVec.eq_of_toNat_eq; simpa using h
+    rw [if_neg hne, if_neg hn, BitVec.toNat_add]
+    simp only [BitVec.toNat_ofNat]
+    omega
+
+/-- **The accepted seqid** (4.0): on a confirmed open-owner with no transaction in
+progress, a request starts a transaction iff its seqid is exactly `nextSeqID`
+of the owner's last one (and is not recognised as a retransmission, i.e. not
+equal to the last one while a response is cached); it is recognised as a
+retransmission exactly by equality with the last seqid. -/
+theorem accepted_seq_is_successor_40 (s : State) (c : Nat) (r : Req) (o : Nat)
+    (hres : resolve s r = some o) (hb : (s.oo o).busy = none) (hc : (s.oo o).confirmed = true) :
+    ((arrive s c r).2 = .started ↔ (NoReplay (s.oo o) r.seq ∧ r.seq = nextSeq (s.oo o).lastSeq)) ∧
+    ((∃ rep, (arrive s c r).2 = .reply rep ∧ arrive s c r = (s, .reply rep) ∧ ¬ NoReplay (s.oo o) r.seq) ↔
+      ((s.oo o).lastResp.isSome = true ∧ r.seq = (s.oo o).lastSeq)) := by
+  by_cases hrep : ∃ resp, (s.oo o).lastResp = some resp ∧ r.seq = (s.oo o).lastSeq
+  · obtain ⟨resp, h1, h2⟩ := hrep
+    have hnn : ¬ NoReplay (s.oo o) r.seq := by
+      intro hn; rcases hn with hn | hn
+      · rw [h1] at hn; cases hn
+      · exact hn h2
+    rw [arrive_eq_replay s c r o resp hres hb h1 h2]
+    refine ⟨⟨(fun h => by cases h), fun h => absurd h.1 hnn⟩, ⟨fun _ => ⟨by simp [h1], h2⟩, fun _ => ⟨_, rfl, rfl, hnn⟩⟩⟩
+  · have hn : NoReplay (s.oo o) r.seq := by
+      cases h1 : (s.oo o).lastResp with
+      | none => exact Or.inl h1
+      | some resp => exact Or.inr (fun h2 => hrep ⟨resp, h1, h2⟩)
+    have hnot : ¬ ((s.oo o).lastResp.isSome = true ∧ r.seq = (s.oo o).lastSeq) := by
+      intro ⟨h1, h2⟩
+      cases h3 : (s.oo o).lastResp with
+      | none => rw [h3] at h1; simp at h1
+      | some resp => exact hrep ⟨resp, h3, h2⟩
+    by_cases hq : r.seq = nextSeq (s.oo o).lastSeq
+    · rw [arrive_eq_start_confirmed s c r o hres hb hn hc hq]
+      exact ⟨⟨fun _ => ⟨hn, hq⟩, fun _ => rfl⟩, ⟨fun ⟨_, _, _, h⟩ => absurd hn h, fun h => absurd h hnot⟩⟩
+    · rw [arrive_eq_badseq_confirmed s c r o hres hb hn hc hq]
+      exact ⟨⟨(fun h => by cases h), fun h => absurd h.2 hq⟩, ⟨fun ⟨_, _, _, h⟩ => absurd hn h, fun h => absurd h hnot⟩⟩
+
+/-- Same for lock-owners: a LOCK (existing lock-owner) / LOCKU executes iff its
+seqid is `nextSeqID` of the lock-owner's last one and it is not a replay. -/
+theorem lock_accepted_seq_is_successor_40 (s : State) (r : LReq) (x : Resp) (lk f : Nat)
+    (hl : lockLookup s r.other = some (lk, f)) :
+    (lockTx s r x).2.2 = true ↔
+      (((s.lo lk).lastResp = none ∨ r.seq ≠ (s.lo lk).lastSeq) ∧ r.seq = nextSeq (s.lo lk).lastSeq) := by
+  unfold lockTx
+  rw [hl]
+  dsimp only
+  by_cases h1 : ((s.lo lk).lastResp.isSome && r.seq == (s.lo lk).lastSeq) = true
+  · rw [if_pos h1]
+    simp only [Bool.and_eq_true, beq_iff_eq] at h1
+    constructor
+    · intro h; cases h
+    · intro ⟨h2, _⟩
+      rcases h2 with h2 | h2
+      · rw [h2] at h1; simp at h1
+      · exact absurd h1.2 h2
+  · rw [if_neg h1]
+    have hno : (s.lo lk).lastResp = none ∨ r.seq ≠ (s.lo lk).lastSeq := by
+      simp only [Bool.and_eq_true, beq_iff_eq, not_and] at h1
+      cases h3 : (s.lo lk).lastResp with
+      | none => exact Or.inl rfl
+      | some resp => exact Or.inr (h1 (by simp [h3]))
+    by_cases h2 : r.seq = nextSeq (s.lo lk).lastSeq
+    · simp [h2]
+      rw [h2] at hno; exact hno
+    · simp [h2]
+
 /-- The nested case: owner 7 has files 3 and 4 open, lock-owner 9 holds file 3
 (lock seqid 100).  LOCK(new) of lock-owner 9 on file 4 with open seqid 14 and
 lock seqid 105 is refused without consuming seqid 14; with lock seqid 101 it
